@@ -161,3 +161,21 @@ Proof.
   - reflexivity.
   - apply PcStay. repeat constructor.
 Qed.
+
+(* outside the fragment the statement is false of the code: a flag word (and a skipped word) in
+   front of the sub-command name — cobra hands both to the non-interspersed sub-command, traverse only
+   the skipped word (known finding C01-parent-flag-before-subcommand) *)
+Definition ex_verbose : flag := mkFlag (B [118;101;114;98;111;115;101]) KBool (B [118]).
+Definition ex_gamma : cmd := Cmd (B [114;47;103]) (B [103;97;109;109;97]) [] [ex_verbose] false [].
+Definition ex_root2 : cmd := Cmd (B [114]) (B [114;111;111;116]) [] [ex_verbose] true [ex_gamma].
+Theorem parent_flag_refuted :
+  let ws := [B [45]; B [45;118]; B [103;97;109;109;97]; w_x] in
+  let c' := fst (cobra_find ex_root2 ws) in
+  fst (tree_traverse ex_root2 ws []) = c' /\
+  snd (cobra_find ex_root2 ws) = [B [45]; B [45;118]; w_x] /\
+  snd (tree_traverse ex_root2 ws []) = SPositional 2 /\
+  ~ slot_sound (cflags c') (cil c') (snd (cobra_find ex_root2 ws)) (snd (tree_traverse ex_root2 ws [])).
+Proof.
+  cbv zeta. repeat split; try reflexivity.
+  vm_compute. intro H. specialize (H w_x _ eq_refl eq_refl). destruct H as (_ & _ & H). vm_compute in H. discriminate.
+Qed.
